@@ -10,8 +10,12 @@ import (
 	"fmt"
 	"sort"
 
+	"github.com/sarchlab/akita/v5/naming"
+
 	"github.com/sarchlab/akita/v5/hooking"
+	"github.com/sarchlab/akita/v5/messaging"
 	"github.com/sarchlab/akita/v5/modeling"
+	"github.com/sarchlab/akita/v5/noc/directconnection"
 	"github.com/sarchlab/akita/v5/timing"
 
 	"verifharness/internal/hx"
@@ -20,10 +24,23 @@ import (
 // ----------------------------------------------------------------- input
 
 // act is one call made on component Tgt: K = 0 TickNow, 1 TickLater,
-// 2 NotifyRecv, 3 NotifyPortFree.
+// 2 NotifyRecv, 3 NotifyPortFree.  With a network (input.Net): K = 4 component
+// Src sends a message from its port to component Tgt's port (if CanSend),
+// K = 5 component Src retrieves one incoming message from its port.  Inside a
+// Tick() script Src is the ticking component itself.
 type act struct {
 	Tgt int `json:"tgt"`
 	K   int `json:"k"`
+	Src int `json:"src,omitempty"`
+}
+
+// netIn adds real ports and one real noc/directconnection between the
+// components; the connection is a TickingComponent of its own (frequency F,
+// secondary ticks) and is projected and replayed like the others.
+type netIn struct {
+	F      uint64 `json:"f"`
+	InCap  int    `json:"in_cap"`
+	OutCap int    `json:"out_cap"`
 }
 
 type compIn struct {
@@ -42,6 +59,7 @@ type envIn struct {
 type input struct {
 	Comps []compIn `json:"comps"`
 	Env   []envIn  `json:"env"`
+	Net   *netIn   `json:"net,omitempty"`
 }
 
 // ----------------------------------------------------------------- run
@@ -64,12 +82,14 @@ type compRT struct {
 	cur   *evRec
 	nTick int
 	w     *world
+	port  messaging.Port
 }
 
 type world struct {
 	eng   *timing.SerialEngine
 	comps []*compRT
 	in    input
+	conn  *directconnection.Comp
 }
 
 // sched wraps the engine for one component so that the harness sees exactly
@@ -84,6 +104,13 @@ func (s *sched) CurrentTime() timing.VTimeInPicoSec { return s.w.eng.CurrentTime
 func (s *sched) RegisterHandler(name string, h timing.Handler) {
 	s.w.eng.RegisterHandler(name, h)
 }
+
+func (s *sched) AcceptHook(h hooking.Hook) { s.w.eng.AcceptHook(h) }
+func (s *sched) NumHooks() int             { return s.w.eng.NumHooks() }
+func (s *sched) Hooks() []hooking.Hook     { return s.w.eng.Hooks() }
+func (s *sched) Run() error                { return s.w.eng.Run() }
+func (s *sched) Pause()                    { s.w.eng.Pause() }
+func (s *sched) Continue()                 { s.w.eng.Continue() }
 
 func (s *sched) Schedule(e timing.Event) {
 	c := s.c
@@ -103,6 +130,7 @@ func (c *compRT) Tick() bool {
 	c.nTick++
 	if k < len(c.in.Acts) {
 		for _, a := range c.in.Acts[k] {
+			a.Src = c.idx
 			c.w.do(a)
 		}
 	}
@@ -113,26 +141,134 @@ func (c *compRT) Tick() bool {
 	return b
 }
 
+// call records one TickNow/TickLater/NotifyRecv/NotifyPortFree on c and runs it.
+func (c *compRT) call(k int, f func()) {
+	r := &evRec{Kind: "call", K: k, T: uint64(c.w.eng.CurrentTime()), Obs: "drop"}
+	c.hist = append(c.hist, r)
+	saved := c.cur
+	c.cur = r
+	f()
+	c.cur = saved
+}
+
+type netMsg struct{ messaging.MsgMeta }
+
 func (w *world) do(a act) {
+	if a.K >= 4 {
+		if w.in.Net == nil || a.Src < 0 || a.Src >= len(w.in.Comps) {
+			return
+		}
+		src := w.comps[a.Src]
+		if a.K == 5 {
+			src.port.RetrieveIncoming()
+			return
+		}
+		if a.Tgt < 0 || a.Tgt >= len(w.in.Comps) || a.Tgt == a.Src || !src.port.CanSend() {
+			return
+		}
+		src.port.Send(netMsg{messaging.MsgMeta{ID: timing.GetIDGenerator().Generate(),
+			Src: src.port.AsRemote(), Dst: w.comps[a.Tgt].port.AsRemote()}})
+		return
+	}
 	if a.Tgt < 0 || a.Tgt >= len(w.comps) {
 		return
 	}
 	c := w.comps[a.Tgt]
-	r := &evRec{Kind: "call", K: a.K & 3, T: uint64(w.eng.CurrentTime()), Obs: "drop"}
-	c.hist = append(c.hist, r)
-	saved := c.cur
-	c.cur = r
 	switch a.K & 3 {
 	case 0:
-		c.tc.TickNow()
+		c.call(0, c.tc.TickNow)
 	case 1:
-		c.tc.TickLater()
+		c.call(1, c.tc.TickLater)
 	case 2:
-		c.tc.NotifyRecv(nil)
+		c.call(2, func() { c.tc.NotifyRecv(nil) })
 	default:
-		c.tc.NotifyPortFree(nil)
+		c.call(3, func() { c.tc.NotifyPortFree(nil) })
 	}
-	c.cur = saved
+}
+
+// owner is what the real ports see as their component: it records the
+// notification in the component's history and passes it on to the real
+// TickingComponent.
+type owner struct {
+	*modeling.TickingComponent
+	c *compRT
+}
+
+func (o *owner) NotifyRecv(p messaging.Port) {
+	o.c.call(2, func() { o.TickingComponent.NotifyRecv(p) })
+}
+
+func (o *owner) NotifyPortFree(p messaging.Port) {
+	o.c.call(3, func() { o.TickingComponent.NotifyPortFree(p) })
+}
+
+// connRec is what the real ports see as their connection: it records the
+// TickNow that NotifySend / NotifyAvailable perform on the real connection.
+type connRec struct {
+	hooking.HookableBase
+	c     *compRT
+	conn  *directconnection.Comp
+	proxy map[messaging.Port]messaging.Port
+}
+
+func (r *connRec) Name() string            { return r.conn.Name() }
+func (r *connRec) PlugIn(p messaging.Port) { r.conn.PlugIn(p) }
+func (r *connRec) Unplug(p messaging.Port) { r.conn.Unplug(p) }
+func (r *connRec) NotifySend()             { r.c.call(0, r.conn.NotifySend) }
+func (r *connRec) NotifyAvailable(p messaging.Port) {
+	r.c.call(0, func() { r.conn.NotifyAvailable(r.proxy[p]) })
+}
+
+// proxyPort is the port object handed to the real connection: identical to the
+// real port except that plugging in connects the real port to the recorder.
+type proxyPort struct {
+	messaging.Port
+	rec *connRec
+}
+
+func (p *proxyPort) SetConnection(_ messaging.Connection) { p.Port.SetConnection(p.rec) }
+
+// tickRec wraps the connection's Tick() so that its progress bit is recorded.
+type tickRec struct {
+	inner modeling.Ticker
+	c     *compRT
+}
+
+func (t *tickRec) Tick() bool {
+	b := t.inner.Tick()
+	r := &evRec{Kind: "ret", B: b, Obs: "drop"}
+	t.c.hist = append(t.c.hist, r)
+	t.c.cur = r
+	return b
+}
+
+type registrar struct{ s *sched }
+
+func (r registrar) GetEngine() timing.Engine          { return r.s }
+func (r registrar) RegisterComponent(_ naming.Named)  {}
+func (r registrar) RegisterConnection(_ naming.Named) {}
+func (r registrar) RegisterResource(_ naming.Named)   {}
+func (r registrar) RegisterPort(_ naming.Named)       {}
+
+func (w *world) buildNet() {
+	n := w.in.Net
+	c := &compRT{idx: len(w.comps), name: "Conn", w: w, in: compIn{F: n.F, Sec: true}}
+	s := &sched{w: w, c: c}
+	conn := directconnection.MakeBuilder().WithRegistrar(registrar{s}).
+		WithSpec(directconnection.Spec{Freq: timing.Freq(n.F)}).Build(c.name)
+	// same replacement the builder itself performs, with a recording ticker
+	conn.Component.TickingComponent = modeling.NewSecondaryTickingComponent(
+		c.name, s, timing.Freq(n.F), &tickRec{inner: conn.Component, c: c})
+	c.tc = conn.Component.TickingComponent
+	rec := &connRec{c: c, conn: conn, proxy: map[messaging.Port]messaging.Port{}}
+	for _, k := range w.comps {
+		k.port = messaging.NewPort(&owner{TickingComponent: k.tc, c: k}, n.InCap, n.OutCap, k.name+".Port")
+		px := &proxyPort{Port: k.port, rec: rec}
+		rec.proxy[k.port] = px
+		conn.PlugIn(px)
+	}
+	w.conn = conn
+	w.comps = append(w.comps, c)
 }
 
 type envEvent struct {
@@ -198,6 +334,9 @@ func execute(in input) obsOut {
 			c.tc = modeling.NewTickingComponent(c.name, s, timing.Freq(ci.F), c)
 		}
 		w.comps = append(w.comps, c)
+	}
+	if in.Net != nil {
+		w.buildNet()
 	}
 	w.eng.AcceptHook(&hook{w})
 	for i, e := range in.Env {
@@ -272,7 +411,13 @@ func run(raw json.RawMessage) (hx.Case, error) {
 				progress++
 			}
 		}
-		comps = append(comps, hx.App("mk_comp", hx.N(in.Comps[i].F), hx.L(evs)))
+		f := uint64(0)
+		if i < len(in.Comps) {
+			f = in.Comps[i].F
+		} else {
+			f = in.Net.F
+		}
+		comps = append(comps, hx.App("mk_comp", hx.N(f), hx.L(evs)))
 	}
 	c.Coq = hx.App("mk_case", hx.L(comps), hx.B(o.Completed))
 
@@ -313,6 +458,7 @@ func run(raw json.RawMessage) (hx.Case, error) {
 	tag(nondiv, "periods:non-dividing")
 	tag(len(pl) > 1 && !nondiv, "periods:dividing")
 	tag(len(pl) <= 1, "periods:single")
+	tag(in.Net != nil, "real-ports+directconnection")
 	tag(sec, "secondary-component")
 	tag(self, "self-call-in-tick")
 	tag(drops > 0, "guard-dropped-request")
@@ -337,6 +483,18 @@ var freqPool = []uint64{
 func genScript(r *hx.Rand, big bool) input {
 	var in input
 	nc := r.Range(1, 4)
+	net := r.Chance(2, 5)
+	if net {
+		nc = r.Range(2, 4)
+		in.Net = &netIn{F: []uint64{1_000_000_000, 1_000_000_000, 2_000_000_000, 700_000_000, 1_500_000_000, 3}[r.Intn(6)],
+			InCap: r.Range(1, 2), OutCap: r.Range(1, 3)}
+	}
+	pickK := func() int {
+		if net && r.Chance(3, 5) {
+			return r.Pick(0, 0, 0, 0, 3, 2) // send / retrieve through the real ports
+		}
+		return r.Pick(2, 3, 3, 2)
+	}
 	var per []uint64
 	for i := 0; i < nc; i++ {
 		var f uint64
@@ -358,7 +516,7 @@ func genScript(r *hx.Rand, big bool) input {
 			ci.Prog = append(ci.Prog, r.Chance(3, 5))
 			var as []act
 			for r.Chance(2, 5) {
-				as = append(as, act{Tgt: r.Intn(nc), K: r.Pick(2, 3, 3, 2)})
+				as = append(as, act{Tgt: r.Intn(nc), K: pickK()})
 			}
 			ci.Acts = append(ci.Acts, as)
 		}
@@ -391,10 +549,10 @@ func genScript(r *hx.Rand, big bool) input {
 		e := envIn{T: t, Sec: r.Chance(1, 4)}
 		na := r.Range(1, 4)
 		for j := 0; j < na; j++ {
-			a := act{Tgt: r.Intn(nc), K: r.Pick(3, 3, 3, 2)}
+			a := act{Tgt: r.Intn(nc), K: pickK(), Src: r.Intn(nc)}
 			e.Acts = append(e.Acts, a)
 			if r.Chance(1, 3) { // duplicate same-instant request
-				e.Acts = append(e.Acts, act{Tgt: a.Tgt, K: r.Pick(3, 3, 3, 2)})
+				e.Acts = append(e.Acts, act{Tgt: a.Tgt, K: pickK(), Src: a.Src})
 			}
 		}
 		in.Env = append(in.Env, e)
@@ -404,26 +562,41 @@ func genScript(r *hx.Rand, big bool) input {
 
 func directed() []input {
 	var out []input
-	tl := func(k int) []act { return []act{{0, k}} }
+	tl := func(k int) []act { return []act{{Tgt: 0, K: k}} }
 	for _, f := range []uint64{1_000_000_000, 1_500_000_000, 3, ps, 1, 7_000_000} {
 		p := ps / f
 		// duplicate same-instant requests before / at / after the tick
-		out = append(out, input{Comps: []compIn{{F: f, Prog: []bool{true, true, false}, Acts: [][]act{{{0, 1}}, {{0, 0}}, nil}}},
-			Env: []envIn{{T: 0, Acts: []act{{0, 0}, {0, 0}, {0, 1}, {0, 2}}},
-				{T: p, Acts: []act{{0, 3}, {0, 3}, {0, 0}}},
-				{T: p, Sec: true, Acts: []act{{0, 0}, {0, 1}}},
+		out = append(out, input{Comps: []compIn{{F: f, Prog: []bool{true, true, false}, Acts: [][]act{{{Tgt: 0, K: 1}}, {{Tgt: 0, K: 0}}, nil}}},
+			Env: []envIn{{T: 0, Acts: []act{{Tgt: 0, K: 0}, {Tgt: 0, K: 0}, {Tgt: 0, K: 1}, {Tgt: 0, K: 2}}},
+				{T: p, Acts: []act{{Tgt: 0, K: 3}, {Tgt: 0, K: 3}, {Tgt: 0, K: 0}}},
+				{T: p, Sec: true, Acts: []act{{Tgt: 0, K: 0}, {Tgt: 0, K: 1}}},
 				{T: 2*p + 1, Acts: tl(0)}, {T: 2*p + 1, Acts: tl(1)}, {T: 3*p - 1, Acts: tl(2)}}})
 		// TickNow after the tick at the same instant was handled (C09's drop): no tick, by design of the guard
 		out = append(out, input{Comps: []compIn{{F: f, Prog: []bool{false}}},
 			Env: []envIn{{T: 5 * p, Acts: tl(0)}, {T: 5 * p, Sec: true, Acts: tl(0)}}})
 		// TickLater then TickNow at an edge: TickNow is absorbed by the later tick
 		out = append(out, input{Comps: []compIn{{F: f, Prog: []bool{true, false}}},
-			Env: []envIn{{T: 4 * p, Acts: []act{{0, 1}, {0, 0}}}, {T: 4*p + p/2, Acts: tl(0)}}})
+			Env: []envIn{{T: 4 * p, Acts: []act{{Tgt: 0, K: 1}, {Tgt: 0, K: 0}}}, {T: 4*p + p/2, Acts: tl(0)}}})
 		// two components, one secondary, cross notifications from inside Tick()
 		out = append(out, input{Comps: []compIn{
-			{F: f, Prog: []bool{true, true, true, false}, Acts: [][]act{{{1, 2}}, {{1, 3}, {1, 2}}, {{0, 1}}, nil}},
-			{F: 1_500_000_000, Sec: true, Prog: []bool{true, false, true}, Acts: [][]act{{{0, 2}}, {{0, 0}}, nil}}},
-			Env: []envIn{{T: 1, Acts: []act{{0, 2}, {1, 2}}}, {T: 3 * p, Acts: []act{{1, 0}, {0, 3}}}}})
+			{F: f, Prog: []bool{true, true, true, false}, Acts: [][]act{{{Tgt: 1, K: 2}}, {{Tgt: 1, K: 3}, {Tgt: 1, K: 2}}, {{Tgt: 0, K: 1}}, nil}},
+			{F: 1_500_000_000, Sec: true, Prog: []bool{true, false, true}, Acts: [][]act{{{Tgt: 0, K: 2}}, {{Tgt: 0, K: 0}}, nil}}},
+			Env: []envIn{{T: 1, Acts: []act{{Tgt: 0, K: 2}, {Tgt: 1, K: 2}}}, {T: 3 * p, Acts: []act{{Tgt: 1, K: 0}, {Tgt: 0, K: 3}}}}})
+	}
+	// real ports + a real direct connection (1 GHz, secondary) between a 1.5 GHz and a 700 MHz component:
+	// request/reply ping-pong with retrievals, capacity-1 buffers (port-free notifications)
+	for _, cf := range []uint64{1_000_000_000, 3, 2_000_000_000} {
+		snd := func(to int) act { return act{Tgt: to, K: 4} }
+		rcv := act{K: 5}
+		out = append(out, input{Net: &netIn{F: cf, InCap: 1, OutCap: 1},
+			Comps: []compIn{
+				{F: 1_500_000_000, Prog: []bool{true, true, true, false, true, false},
+					Acts: [][]act{{snd(1)}, {snd(1)}, {rcv, snd(1)}, {rcv}, {rcv, snd(1)}, {rcv}}},
+				{F: 700_000_000, Sec: true, Prog: []bool{true, false, true, true, false},
+					Acts: [][]act{{rcv, snd(0)}, {rcv}, {rcv, snd(0)}, {rcv, snd(0)}, {rcv}}}},
+			Env: []envIn{{T: 1, Acts: []act{{Tgt: 1, K: 4, Src: 0}, {Tgt: 1, K: 4, Src: 0}}},
+				{T: 5000, Acts: []act{{Tgt: 0, K: 4, Src: 1}, {K: 5, Src: 0}, {K: 5, Src: 1}}},
+				{T: 5000, Sec: true, Acts: []act{{Tgt: 1, K: 4, Src: 0}}}}})
 	}
 	// near 2^64: the next edge is not representable
 	top := ^uint64(0)
@@ -434,9 +607,9 @@ func directed() []input {
 		input{Comps: []compIn{{F: 1, Prog: []bool{true}}}, Env: []envIn{{T: (top/ps)*ps + 5, Acts: tl(2)}}},
 		input{Comps: []compIn{{F: 1, Prog: []bool{true}}}, Env: []envIn{{T: (top/ps)*ps + 5, Acts: tl(0)}}},
 		input{Comps: []compIn{{F: 3, Prog: []bool{true}}, {F: 1_000_000_000, Prog: []bool{true, true}}},
-			Env: []envIn{{T: 7, Acts: []act{{1, 2}}}, {T: top - 1000, Acts: []act{{1, 1}, {0, 3}}}}},
+			Env: []envIn{{T: 7, Acts: []act{{Tgt: 1, K: 2}}}, {T: top - 1000, Acts: []act{{Tgt: 1, K: 1}, {Tgt: 0, K: 3}}}}},
 		input{Comps: []compIn{{F: 1, Prog: []bool{true, true}}}, Env: []envIn{{T: (top/ps)*ps - 5, Acts: tl(0)}}},
-		input{Comps: []compIn{{F: 1, Prog: []bool{false}}}, Env: []envIn{{T: (top/ps)*ps - 5, Acts: tl(0)}, {T: (top / ps) * ps, Sec: true, Acts: []act{{0, 1}, {0, 0}}}}},
+		input{Comps: []compIn{{F: 1, Prog: []bool{false}}}, Env: []envIn{{T: (top/ps)*ps - 5, Acts: tl(0)}, {T: (top / ps) * ps, Sec: true, Acts: []act{{Tgt: 0, K: 1}, {Tgt: 0, K: 0}}}}},
 		input{Comps: []compIn{{F: 1_000_000_000, Prog: []bool{true, true, true}}}, Env: []envIn{{T: top - 2500, Acts: tl(1)}}},
 		input{Comps: []compIn{{F: ps, Prog: []bool{true, true, true}}}, Env: []envIn{{T: top - 2, Acts: tl(1)}}},
 	)
@@ -512,7 +685,9 @@ func init() {
 			"handled tick; cross notifications between a primary and a secondary component; next edge beyond 2^64) for 1 Hz, 3 Hz, " +
 			"7 MHz, 1 GHz, 1.5 GHz, 1 THz; plus random scripts: 1-4 TickingComponents (frequency from a pool incl. non-dividing " +
 			"periods 666/1428/3/2/1 ps, uniform in [1,10^12], or k GHz; 1/4 secondary), Tick() scripts with progress bits (p=3/5) and " +
-			"calls on any component incl. itself, 1-40 environment events (primary/secondary) on edges, edge+-1 or uniform times, " +
+			"calls on any component incl. itself; 2/5 of the scripts add real messaging ports (capacity 1-3) and a real " +
+			"noc/directconnection (1/2/0.7/1.5 GHz or 3 Hz, secondary ticks) so that NotifyRecv/NotifyPortFree/TickNow come from " +
+			"real sends, deliveries and retrievals and the connection is itself a replayed ticking component; 1-40 environment events (primary/secondary) on edges, edge+-1 or uniform times, " +
 			"each issuing 1-4 calls with a duplicate same-instant request with p=1/3. Non-trivial: the guard dropped a request, " +
 			"a tick made progress and >= 3 ticks were dispatched. Distinct = distinct input hash.",
 		Gen: gen, Run: run, Shrink: shrink,
